@@ -325,9 +325,9 @@ func (s *c02SeekStream) Hierarchy() []slip.Symbol {
 	return []slip.Symbol{slip.Symbol("stream"), slip.TrueSymbol}
 }
 func (s *c02SeekStream) Eval(_ *slip.Scope, _ int) slip.Object { return s }
-func (s *c02SeekStream) StreamType() slip.Symbol                { return slip.Symbol("stream") }
-func (s *c02SeekStream) IsOpen() bool                           { return true }
-func (s *c02SeekStream) Read(p []byte) (int, error)             { return s.r.Read(p) }
+func (s *c02SeekStream) StreamType() slip.Symbol               { return slip.Symbol("stream") }
+func (s *c02SeekStream) IsOpen() bool                          { return true }
+func (s *c02SeekStream) Read(p []byte) (int, error)            { return s.r.Read(p) }
 func (s *c02SeekStream) Seek(off int64, whence int) (int64, error) {
 	switch whence {
 	case io.SeekStart:
@@ -352,17 +352,17 @@ func (c *c02Collector) Call(_ *slip.Scope, args slip.List, _ int) slip.Object {
 // entry points
 
 const (
-	c02EReadString   = "ReadString"
-	c02ERead         = "Read"
-	c02EReadOne      = "ReadOne"
-	c02EStream       = "ReadStream"
-	c02EStreamOne    = "ReadStream(one)"
-	c02EStreamPush   = "ReadStreamPush"
-	c02EStreamEach   = "ReadStreamEach"
-	c02EClReadSeek   = "cl:read(seekable)"
-	c02EClRead       = "cl:read(stream)"
-	c02EReadFromStr  = "read-from-string"
-	c02EFormByForm   = "ReadOne(form-by-form)"
+	c02EReadString    = "ReadString"
+	c02ERead          = "Read"
+	c02EReadOne       = "ReadOne"
+	c02EStream        = "ReadStream"
+	c02EStreamOne     = "ReadStream(one)"
+	c02EStreamPush    = "ReadStreamPush"
+	c02EStreamEach    = "ReadStreamEach"
+	c02EClReadSeek    = "cl:read(seekable)"
+	c02EClRead        = "cl:read(stream)"
+	c02EReadFromStr   = "read-from-string"
+	c02EFormByForm    = "ReadOne(form-by-form)"
 	c02ERfsFormByForm = "read-from-string(form-by-form)"
 )
 
@@ -401,12 +401,22 @@ func c02Run(entry string, text []byte, plan c02Plan, cfg c02Cfg) c02Out {
 			code, pos := slip.ReadStream(plan.reader(text), scope, true)
 			out.Objs, out.Pos = c02Rendered(code), pos
 		case c02EStreamPush:
-			ch := make(chan slip.Object, len(text)+2)
+			// a consumer drains the channel concurrently: a reader that pushes too much must not
+			// be able to block the harness
+			ch := make(chan slip.Object, 16)
+			done := make(chan []string)
+			go func() {
+				var got []string
+				for o := range ch {
+					if len(got) <= 4*len(text)+8 {
+						got = append(got, c02Render(o))
+					}
+				}
+				done <- got
+			}()
 			defer func() {
 				close(ch)
-				for o := range ch {
-					out.Objs = append(out.Objs, c02Render(o))
-				}
+				out.Objs = <-done
 			}()
 			slip.ReadStreamPush(plan.reader(text), scope, ch)
 		case c02EStreamEach:
